@@ -1,4 +1,5 @@
 //! Correspondence harness of property C05 (foreign-field and big-integer gadgets).
+mod bigrun;
 mod bounds;
 mod fieldrun;
 mod gates;
@@ -50,11 +51,17 @@ fn main() {
     }
     let mut ctx = mzkh::Ctx::from_args("C05");
     bounds::run(&mut ctx);
+    let only = std::env::var("C05_ONLY").ok();
     macro_rules! one {
         ($name:expr, $F:ty, $K:ty) => {
-            fieldrun::run_set::<$F, $K>(&mut ctx, $name);
+            if only.is_none() || only.as_deref() == Some("field") {
+                fieldrun::run_set::<$F, $K>(&mut ctx, $name);
+            }
         };
     }
     for_each_circuit_set!(one);
+    if std::env::var("C05_ONLY").map(|v| v == "big").unwrap_or(true) {
+        bigrun::run(&mut ctx);
+    }
     ctx.finish();
 }
